@@ -215,8 +215,10 @@ func ZZ_C11_Deferred() {
 	got := zzRecorded
 	if zz.Native() {
 		got = nil
-		for _, l := range sink.lines {
-			got = append(got, "echo "+l)
+		for _, l := range strings.Split(strings.Join(sink.lines, "\n"), "\n") {
+			if strings.TrimSpace(l) != "" {
+				got = append(got, "echo "+strings.TrimSpace(l))
+			}
 		}
 	}
 	want := []string{"echo work-" + b1, "echo cleanup-" + b1, "echo work-" + b2, "echo cleanup-" + b2}
